@@ -230,8 +230,157 @@ def p_secure(nb, extra, rnd, t):
     return None
 
 
+# ---------------------------------------------------------------- histories: the same objects / functions used repeatedly
+# A step's result must equal the stateless reference for ITS arguments whatever was asked before (no memo on the
+# word lists, no module-level cache keyed by only part of the arguments, no PBKDF2 stream state leaking between
+# objects, no seed remembered per mnemonic regardless of the passphrase).
+
+import os as _os  # noqa: E402
+
+_DIR = _os.path.dirname(mnemonic.__file__)
+REF_WORDS = [open(_os.path.join(_DIR, f)).read().split() for f in ("bip39_words.txt", "slip39_words.txt")]
+REF_LOOKUP = []
+for _ws in REF_WORDS:
+    _d = {}
+    for _i, _w in enumerate(_ws):
+        _d[_w] = _i
+        if len(_w) > 4:
+            _d[_w[:4]] = _i          # same order of insertion as the specification: later entries win
+    REF_LOOKUP.append(_d)
+B58 = "123456789ABCDEFGHJKLMNPQRSTUVWXYZabcdefghijkmnopqrstuvwxyz"
+HNETS = ["mainnet", "testnet", "signet", "regtest"]
+
+
+def _b58check(raw):
+    raw = raw + hashlib.sha256(hashlib.sha256(raw).digest()).digest()[:4]
+    n = int.from_bytes(raw, "big")
+    out = ""
+    while n:
+        n, k = divmod(n, 58)
+        out = B58[k] + out
+    return "1" * (len(raw) - len(raw.lstrip(b"\x00"))) + out
+
+
+def _tryE(f, *a, **kw):
+    try:
+        return f(*a, **kw)
+    except Exception:
+        return ERR
+
+
+def _wl_step(op):
+    which, kind, arg = op
+    wl, words, look = WL[which], REF_WORDS[which], REF_LOOKUP[which]
+    if kind == b"idx":
+        t = _txt(arg)
+        return _tryE(wl.__getitem__, t), look.get(t, ERR)
+    if kind == b"word":
+        return _tryE(wl.__getitem__, arg), (words[arg] if -len(words) <= arg < len(words) else ERR)
+    if kind == b"norm":
+        t = _txt(arg)
+        return _tryE(wl.normalize, t), (words[look[t.lower()]] if t.lower() in look else ERR)
+    if kind == b"in":
+        t = _txt(arg)
+        return _tryE(wl.__contains__, t), t in words
+    raise ValueError(kind)
+
+
+def _mn_step(op):
+    kind = op[0]
+    if kind == b"enc":
+        e = op[1]
+        want = " ".join(REF_WORDS[0][i] for i in ref_indices(e)) if len(e) in (16, 20, 24, 28, 32) else ERR
+        return _tryE(mnemonic.bytes_to_mnemonic, e, len(e) * 8), want
+    if kind == b"dec":
+        t = _txt(op[1])
+        want = ref_decode(t)
+        return _tryE(mnemonic.mnemonic_to_bytes, t), (ERR if want is None else want)
+    if kind == b"kdf":
+        return _tryE(helper.hmac_sha512_kdf, _txt(op[1]), op[2]), \
+            hashlib.pbkdf2_hmac("sha512", _txt(op[1]).encode("utf-8"), op[2], 2048, 64)
+    if kind == b"seed":
+        t, pw, net = _txt(op[1]), op[2], HNETS[op[3]]
+        if ref_decode(t) is None:
+            want = ERR
+        else:
+            full = [REF_WORDS[0][REF_LOOKUP[0][w]] for w in t.split()]
+            seed, sec, cc = ref_seed(full, pw)
+            ver = bytes.fromhex("0488ade4" if net == "mainnet" else "04358394")
+            want = [sec, cc, net, _b58check(ver + bytes(9) + cc + b"\x00" + sec.to_bytes(32, "big"))]
+        h = _tryE(hd.HDPrivateKey.from_mnemonic, t, pw, network=net)
+        got = h if h is ERR else [h.private_key.secret, h.chain_code, h.network, h.xprv()]
+        return got, want
+    if kind == b"wl":
+        return _wl_step(op[1:])
+    raise ValueError(kind)
+
+
+def _session(ops, step):
+    from vp.sexp import canon
+    for i, op in enumerate(ops):
+        got, want = step(op)
+        if got is ERR and want is ERR:
+            continue
+        if got is ERR or want is ERR or canon(got) != canon(want):
+            def sh(v):
+                return "an exception" if v is ERR else repr(v)[:100]
+            return (f"step {i} {[x if not isinstance(x, bytes) or len(x) < 40 else x[:40] + b'...' for x in op]!r}: got "
+                    f"{sh(got)}, reference gives {sh(want)} — after {i} earlier call(s) in this session")
+    return None
+
+
+def p_wordlist_session(ops):
+    """lookups on the two shipped WordList objects in arbitrary order: index of a word / prefix, word of an index,
+    normalize, membership — each equals the word file's content, whatever was looked up before"""
+    return _session(ops, _wl_step)
+
+
+def p_mnemonic_session(ops):
+    """bytes_to_mnemonic / mnemonic_to_bytes / hmac_sha512_kdf / HDPrivateKey.from_mnemonic (and word-list lookups)
+    called repeatedly with related arguments: every call equals BIP39 / PBKDF2-HMAC-SHA512 / BIP32 for its own
+    arguments"""
+    return _session(ops, _mn_step)
+
+
+def p_pbkdf2_session(specs, ops):
+    """several PBKDF2 objects alive at once (same passphrase, other salt / iteration count / digest): read, hexread,
+    close and re-creation interleaved; each object's stream is the hashlib stream of ITS parameters and a closed
+    object refuses to read"""
+    def mk(sp):
+        return PBKDF2(sp[1], sp[2], iterations=sp[3], digestmodule=DIGESTS[sp[0]][1], macmodule=hmac)
+    objs = [mk(sp) for sp in specs]
+    pos = [0] * len(specs)
+    closed = [False] * len(specs)
+    for i, (k, kind, n) in enumerate(ops):
+        sp = specs[k]
+        if kind == b"new":
+            objs[k], pos[k], closed[k] = mk(sp), 0, False
+            continue
+        if kind == b"close":
+            objs[k].close()
+            closed[k] = True
+            if objs[k].closed is not True:
+                return f"step {i}: close() did not mark object {k} closed"
+            continue
+        got = _tryE(objs[k].read if kind == b"read" else objs[k].hexread, n)
+        if closed[k]:
+            if got is not ERR:
+                return f"step {i}: object {k} was closed and still returned {n} key bytes"
+            continue
+        want = hashlib.pbkdf2_hmac(DIGESTS[sp[0]][0], sp[1], sp[2], sp[3], pos[k] + n)[pos[k]:] if pos[k] + n else b""
+        if kind == b"hex":
+            want = want.hex()
+        if got is ERR or got != want:
+            return (f"step {i}: {kind.decode()}({n}) on object {k} ({DIGESTS[sp[0]][0]}, c={sp[3]}, {pos[k]} bytes read so "
+                    f"far) is not bytes {pos[k]}..{pos[k] + n} of hashlib.pbkdf2_hmac for its parameters")
+        pos[k] += n
+    return None
+
+
 PROPS = {"roundtrip": p_roundtrip, "accept_iff": p_accept_iff, "lookup_all": p_lookup_all,
-         "pbkdf2": p_pbkdf2, "seed": p_seed, "secure": p_secure}
+         "pbkdf2": p_pbkdf2, "seed": p_seed, "secure": p_secure,
+         "wordlist_session": p_wordlist_session, "mnemonic_session": p_mnemonic_session,
+         "pbkdf2_session": p_pbkdf2_session}
 
 # ---------------------------------------------------------------- generators
 
@@ -261,6 +410,119 @@ def splits(r, total):
         out.append(c - prev)
         prev = c
     return out
+
+
+def _shuffle_repeat(r, ops, repeat=0.3):
+    ops = list(ops)
+    r.shuffle(ops)
+    for op in list(ops):
+        if r.random() < repeat:
+            ops.insert(r.randrange(len(ops) + 1), op)
+    return ops
+
+
+def wl_ops(ctx, k):
+    """lookups around a few words: full word, prefix, near misses that share the first letters, the other list"""
+    r = ctx.rng
+    ops = []
+    common = [w for w in REF_WORDS[1] if w in REF_LOOKUP[0]]
+    for _ in range(k):
+        which = r.randrange(2)
+        words = REF_WORDS[which]
+        i = r.randrange(len(words))
+        w = r.choice(common) if r.random() < 0.3 else words[i]
+        for t in (w, w[:4], w[:3], w[:5], w + "x", w[:4] + "zz", w.upper(), w[:4].capitalize(), w[:4].upper()):
+            ops.append([which, b"idx", t.encode()])
+            ops.append([which, b"norm", t.encode()])
+            if r.random() < 0.4:
+                ops.append([1 - which, r.choice([b"idx", b"norm", b"in"]), t.encode()])
+            if r.random() < 0.3:
+                ops.append([which, b"in", t.encode()])
+        for j in (i, -i, i + len(words), i - len(words) - 1, len(words) - 1 - i):
+            ops.append([r.randrange(2), b"word", j])
+    return _shuffle_repeat(r, ops)
+
+
+def mn_ops(ctx, seeds=3):
+    """one entropy and a near one: spellings, broken variants, passphrases and networks in every order"""
+    r = ctx.rng
+    W = REF_WORDS[0]
+    e1 = rentropy(ctx)
+    e2 = e1[:-1] + bytes([e1[-1] ^ 1])
+    ops, texts = [], []
+    for e in (e1, e2):
+        ws = [W[i] for i in ref_indices(e)]
+        full = " ".join(ws)
+        pre = " ".join(w[:4] for w in ws)
+        mix = " ".join(w[:4] if r.random() < 0.5 else w for w in ws)
+        p = r.randrange(len(ws))
+        variants = [full, pre, mix,
+                    " ".join(ws[:p] + [ws[p] + "x"] + ws[p + 1:]),            # unknown word sharing a prefix
+                    " ".join(ws[:p] + [ws[p][:4] + "zz"] + ws[p + 1:]),
+                    " ".join(ws[:p] + [ws[p].upper()] + ws[p + 1:]),
+                    " ".join(ws[:-1] + [W[(REF_LOOKUP[0][ws[-1]] ^ 1)]]),         # checksum off by one bit
+                    " ".join(ws[:p] + [W[r.randrange(2048)]] + ws[p + 1:]),
+                    " ".join(ws[:-1]), " ".join(ws + [ws[0]]), "  " + full.replace(" ", "\t ") + "\n"]
+        texts.append((full, pre, mix, variants[3], variants[6]))
+        for t in variants:
+            ops.append([b"dec", t.encode()])
+        ops.append([b"enc", e])
+        ops.append([b"enc", e[:16]])
+        ops.append([b"enc", e + e[:4] if len(e) < 32 else e[:28]])
+        ops.append([b"enc", e[:-1]])
+        for w in r.sample(ws, 3):
+            ops.append([b"wl", 0, b"norm", w[:4].encode()])
+            ops.append([b"wl", 0, b"idx", (w + "x").encode()])
+    pws = [b"", r.choice(PASSPHRASES[1:]), ctx.rbytes(r.randrange(1, 12))]
+    (f1, p1, m1, bad1, badc1), (f2, p2, _m2, _b2, _c2) = texts
+    cand = [(f1, pws[0]), (f1, pws[1]), (p1, pws[1]), (m1, pws[2]), (f2, pws[1]), (f1, pws[1]), (p2, pws[0]),
+            (bad1, pws[1]), (badc1, pws[0])]
+    for (t, pw) in r.sample(cand, min(len(cand), seeds + 2)):
+        ops.append([b"seed", t.encode(), pw, r.choice([0, 0, 1, 2, 3])])
+    ops.append([b"seed", f1.encode(), pws[1], 0])
+    ops.append([b"seed", f1.encode(), pws[2], 1])
+    for (t, salt) in [(f1, b"mnemonic" + pws[1]), (f1, b"mnemonic" + pws[2]), (f2, b"mnemonic" + pws[1]), (f1, b"mnemonic")]:
+        ops.append([b"kdf", t.encode(), salt])
+    return _shuffle_repeat(r, ops, 0.2)
+
+
+def pb_session(ctx):
+    r = ctx.rng
+    pw = ctx.rbytes(r.choice([0, 1, 8, 64, 65, 130]))
+    salt = ctx.rbytes(r.choice([0, 4, 8, 16]))
+    alg, c = r.randrange(3), r.choice([1, 2, 3, 5])
+    specs = [[alg, pw, salt, c], [alg, pw, salt + b"\x00", c], [alg, pw, salt, c + 1], [(alg + 1) % 3, pw, salt, c],
+             [alg, pw + b"\x00", salt, c], [alg, pw, salt, c]]
+    specs = r.sample(specs[1:], r.choice([1, 2, 4])) + [specs[0]]
+    ops = []
+    for _ in range(r.randrange(8, 30)):
+        k = r.randrange(len(specs))
+        x = r.random()
+        if x < 0.6:
+            ops.append([k, b"read", r.choice([0, 1, 5, 19, 20, 21, 32, 63, 64, 65, 130, r.randrange(0, 200)])])
+        elif x < 0.8:
+            ops.append([k, b"hex", r.choice([0, 1, 20, 33, 64, r.randrange(0, 100)])])
+        elif x < 0.9:
+            ops.append([k, b"close", 0])
+            ops.append([k, r.choice([b"read", b"hex"]), r.choice([0, 1, 20])])
+            if r.random() < 0.5:
+                ops.append([k, b"close", 0])
+        else:
+            ops.append([k, b"new", 0])
+    return [specs, ops]
+
+
+def histories(ctx):
+    for _ in range(ctx.n(12, 200)):
+        ctx.label("history/wordlist-lookups")
+        yield ("prop", "wordlist_session", [wl_ops(ctx, 4)])
+    for _ in range(ctx.n(30, 600)):
+        ctx.label("history/pbkdf2-objects")
+        yield ("prop", "pbkdf2_session", pb_session(ctx))
+    for _ in range(ctx.n(8, 100)):
+        ctx.label("history/mnemonic-kdf-seed")
+        yield ("prop", "mnemonic_session", [mn_ops(ctx)])
+
 
 
 def generate(ctx):
@@ -433,3 +695,5 @@ def generate(ctx):
         yield ("corr", "from_mnemonic", [" ".join(ws[:-1]).encode(), b"x"])
     for _ in range(ctx.n(10, 200)):
         yield ("corr", "from_seed", [ctx.rbytes(r.choice([0, 1, 16, 32, 64, 65]))])
+    # --- histories: the same word lists / PBKDF2 objects / functions used repeatedly
+    yield from histories(ctx)
